@@ -125,6 +125,56 @@ fn split(sym_stake: bool) {
     witness("end");
 }
 
+/// found missing by seed C15c: block times with sub-second parts.  The same whole-second span is
+/// passed once in one block and once cut into pieces that are not whole seconds, with a rewards update
+/// (another delegator's withdrawal or a zero slash) after each piece.  Stakes are large enough for a
+/// fraction of a second to be worth many tokens.
+fn split_subsecond() {
+    const BIG: u128 = 1u128 << 50;
+    // pieces in nanoseconds; each row sums to whole seconds
+    const ROWS: [&[u64]; 5] = [
+        &[500_000_000, 500_000_000],
+        &[250_000_000, 250_000_000, 250_000_000, 250_000_000],
+        &[1_500_000_000, 1_500_000_000],
+        &[300_000_000, 700_000_000, 86_399_500_000_000, 500_000_000],
+        &[999_999_999, 1, 5_500_000_000, 5_500_000_000, 5_500_000_000, 5_500_000_000],
+    ];
+    let row = ROWS[choose(ROWS.len())];
+    let touch = choose(2);
+    let mk = |w: &mut Stk| {
+        for op in [Op::Delegate { d: 0, v: 0 }, Op::Delegate { d: 1, v: 0 }] {
+            if !w.apply(&op, BIG) {
+                cut("setup panicked (reported)");
+            }
+        }
+    };
+    let total: u64 = row.iter().sum();
+    let mut wa = Stk::new(Cfg::default());
+    mk(&mut wa);
+    if !wa.apply(&Op::Advance { dt: DtSel::Nanos(total) }, BIG) {
+        return;
+    }
+    let mut wb = Stk::new(Cfg::default());
+    mk(&mut wb);
+    for (i, piece) in row.iter().enumerate() {
+        if !wb.apply(&Op::Advance { dt: DtSel::Nanos(*piece) }, BIG) {
+            return;
+        }
+        if i + 1 < row.len() {
+            let t = if touch == 0 { Op::Slash { v: 0, p: PSel::Fixed(0) } } else { Op::Withdraw { d: 1, v: 0 } };
+            if !wb.apply(&t, BIG) {
+                return;
+            }
+        }
+    }
+    let pa = wa.observed_reward(0, 0).map(v).unwrap_or(k(0));
+    let pb = wb.observed_reward(0, 0).map(v).unwrap_or(k(0));
+    // one floor per rewards update
+    let slack = k(row.len() as u128);
+    check("subsecond_split_changes_shown_reward_by_at_most_the_floors", and(le(pa, add(pb, slack)), le(pb, add(pa, slack))));
+    witness("end");
+}
+
 /// found missing by seed C15b: a partial undelegation matures (block update), more time passes, and the
 /// delegator then withdraws — the payout must be what was shown and the bounds must still hold
 fn partial_unbonding_then_withdraw() {
@@ -161,6 +211,7 @@ pub fn scenarios(tier: &str) -> Vec<Scenario> {
         accrual(2, Mode::TwoConcreteStakesSymbolicTime, false)
     }));
     v.push(Scenario::new("split_independence", &["end"], || split(true)));
+    v.push(Scenario::new("split_independence_subsecond_block_times", &["end"], split_subsecond));
     if tier == "thorough" {
         v.push(Scenario::new("accrual_single_delegator_symbolic_stake_len3", &["withdraw_ok", "end"], || {
             accrual(3, Mode::SingleSymbolicStake, false)
